@@ -174,8 +174,13 @@ def cellPermsOk (m : Mesh) (cps : CellPerms) : Bool :=
     | some cp => cp.isPerm (List.range b.2.length)
     | none => false
 
+/-- well-formed data set as fieldcompare builds them: `MeshFields.wf`, one block per cell type,
+    cell fields only on cell types of the mesh -/
+def MeshFields.wf2 (f : MeshFields) : Bool :=
+  f.wf && decide f.mesh.cellTypes.Nodup && f.cellFields.all fun cf => f.mesh.cellTypes.contains cf.ctype
+
 def permHypB (f : MeshFields) (pp : Option (List Nat)) (cp : Option CellPerms) : Bool :=
-  f.wf && decide f.mesh.cellTypes.Nodup &&
+  f.wf2 &&
   (match pp with | some perm => pointPermOk f.mesh perm | none => true) &&
   (match cp with | some cps => cellPermsOk f.mesh cps | none => true)
 
